@@ -681,7 +681,7 @@ func c12Cases(c *Ctx) (lib, spec, cli []c12Case) {
 		c12Case{Kind: "lib", Bounds: []int64{0, ms}, Lats: []int64{ms - 1}},
 	)
 	r := c.Rand("lib")
-	for i := 0; i < c.Pick(30000, 400000); i++ {
+	for i := 0; i < c.Pick(30000, 2000000); i++ {
 		b := c12GenBounds(r, r.Intn(2) == 0)
 		cs := c12Case{Kind: "lib", Bounds: b, Lats: c12GenLats(r, b, b[0])}
 		if i%25 == 0 {
@@ -705,7 +705,7 @@ func c12Cases(c *Ctx) (lib, spec, cli []c12Case) {
 		c12Case{Kind: "spec", Spec: "[0]", Bounds: []int64{0}, Lats: []int64{0, 5}},
 		c12Case{Kind: "spec", Spec: "[1ms,10ms]", Bounds: []int64{ms, 10 * ms}, Lats: nil},
 	)
-	for i := 0; i < c.Pick(10000, 100000); i++ {
+	for i := 0; i < c.Pick(10000, 500000); i++ {
 		s, b := c12GenSpec(rs)
 		full := b
 		if b[0] > 0 {
